@@ -939,7 +939,7 @@ func (rl *Shell) viRubout() {
 		}
 
 		rl.cursor.Dec()
-		cut = append(cut, rl.cursor.Char())
+		cut = append([]rune{rl.cursor.Char()}, cut...)
 		rl.line.CutRune(rl.cursor.Pos())
 	}
 
